@@ -590,7 +590,7 @@ impl Scenario for InterpDriver {
             abstract_state: "(class of the bit about to execute, stack-depth bucket, inside a spliced branch?, driver-call kind, stdout health)",
             real: &["bsv::Interpreter (from_script, from_transaction, next, run, state, script_index, script_bits, clone)", "bsv::Script::from_script_bits / from_bytes / to_bytes", "bsv::Transaction::sign for signature operands", "process fd 1 (real /dev/full, real pipes)"],
             stub: &["reference trace = single-stepping a fresh Interpreter over the same program with a healthy stdout"],
-            assumptions: &["programs whose next step would allocate more than ~1 MiB per operand (huge LSHIFT of a non-zero value, NUM2BIN to > 1 MiB, CAT/MUL of > 1 MiB operands) are dropped by the reference pass: C16 does not bound memory", "a worker abort caused by allocator exhaustion is recorded as outcome `resource`, not a violation"],
+            assumptions: &["programs whose next step would request more than ~4 MiB (LSHIFT of a non-zero value by more than 2^25 bits, NUM2BIN to more than 4 MiB, CAT/MUL of operands above 1 MiB) or whose live stacks exceed 48 MiB are dropped by the reference pass: C16 does not bound memory", "with those caps nothing legitimate comes near the 1 GiB allocator budget, so a worker abort caused by allocator exhaustion is runaway allocation and is reported", "outcomes are compared as a class (Finished / Err), never by error text; after the end or an error only the stacks are judged, and run() against single-stepping from that state"],
             required_probes: &["ref_finished", "ref_err", "run_after_next", "next_after_none", "next_after_err", "stdout_fault_during_run", "fork_applied"],
             quick_runs: 110_000,
             thorough_runs: 4000000,
